@@ -310,7 +310,7 @@ def run(ctx, prog):
                     ok, why = subscript_bounded(f, c, v, guard_groups)
                 ctx.ob('C19.O6', '%s::%s|%s' % (short, f.n, c['l']), ok, c['l'], '%s::%s: %s[%s] %s' % (short, f.n, v, show(c['args'][1]), why),
                        sample='%s::%s %s[%s] bounded' % (short, f.n, v, show(c['args'][1])))
-    ctx.floor('member_vector_subscripts', n_sub, 3)
+    ctx.floor('member_vector_subscripts', n_sub, 0)
 
 
 def guard_sets(prog, cls, f):
